@@ -129,6 +129,14 @@ def c15_cases(tier, rng):
         n = rng.randint(4, 6)
         yield {'kind': 'c15', 'n': n, 'edges': random_digraph(rng, n, rng.choice([0.15, 0.3])),
                'place': rng.choice(['flat', 'nested']), 'kinds': ''.join(rng.choice('jjes') for _ in range(n))}
+    # jobs scanned k times in one scheduler, then moved (removed, and given to a fresh scheduler, nested or not):
+    # whatever an earlier scan left on the jobs must not matter
+    for n in range(1, 5):
+        for edges in all_digraphs(n):
+            if n == 4 and rng.random() > 0.15:
+                continue
+            for scans in range(0, 4):
+                yield {'kind': 'c15-move', 'n': n, 'edges': edges, 'scans': scans, 'nested': (scans + len(edges)) % 2 == 0}
     for _ in range(k // 3):
         n = rng.randint(2, 6)
         yield {'kind': 'c15-mutate', 'n': n, 'edges': random_dag(rng, n, 0.4),
@@ -155,6 +163,27 @@ def c15_run(case):
         return None
     acyc = is_acyclic(n, edges)
     kinds = case.get('kinds')
+    if case['kind'] == 'c15-move':
+        s0, jobs = build(n, edges, Scheduler)
+        for _ in range(case['scans']):
+            if s0.check_cycles() != acyc:
+                return 'check_cycles() wrong on the first scheduler'
+        for j in jobs:
+            s0.remove(j)
+        s = Scheduler(*jobs)
+        top = Scheduler(s) if case['nested'] else s
+        if top.check_cycles() != acyc:
+            return 'after moving the jobs (scanned %d times before) to a fresh scheduler: check_cycles()=%r but acyclic=%r' % (
+                case['scans'], top.check_cycles(), acyc)
+        try:
+            order = list(s.topological_order())
+        except Exception:
+            order = None
+        if acyc and (order is None or sorted(map(id, order)) != sorted(map(id, jobs))):
+            return 'after moving the jobs to a fresh scheduler: topological_order() does not yield every job once'
+        if not acyc and order is not None:
+            return 'after moving the jobs to a fresh scheduler: topological_order() did not raise on a cyclic graph'
+        return None
     if case['place'] == 'pure':
         s, jobs = build(n, edges, PureScheduler, kinds=kinds)
         top = s
